@@ -413,22 +413,29 @@ func genType(r *lib.Rng) (string, []FDesc) {
 		f.LitDef = !f.DBDef && r.Chance(1, 5)
 		// pointer-typed fields (*int64, *string, *bool; no defaults on them) and fields that live in an embedded
 		// struct (anonymous, or a struct field tagged `embedded`): gorm reaches those through its general accessor
-		if r.Chance(1, 4) {
-			f.Ptr, f.DBDef, f.LitDef = true, false, false
-			if r.Chance(1, 3) {
-				f.Kind = "bool"
-			}
-		}
 		switch {
 		case r.Chance(1, 5):
 			f.Place = "emb"
 		case r.Chance(1, 8):
 			f.Place = "embtag"
 		}
+		mkPtr := func(f *FDesc) {
+			f.Ptr, f.DBDef, f.LitDef = true, false, false
+			if r.Chance(1, 3) {
+				f.Kind = "bool"
+			}
+		}
+		if r.Chance(1, 4) || (f.Place != "" && r.Chance(1, 3)) {
+			mkPtr(&f)
+		}
 		fs = append(fs, f)
 	}
-	if r.Chance(1, 4) { // one data field is the struct's FIRST field (before the key)
-		fs[1+r.Intn(n)].Place = "first"
+	if r.Chance(1, 4) { // one data field is the struct's FIRST field (before the key), a pointer half of the time
+		f := &fs[1+r.Intn(n)]
+		f.Place = "first"
+		if !f.Ptr && r.Bool() {
+			f.Ptr, f.DBDef, f.LitDef = true, false, false
+		}
 	}
 	embTracked := r.Chance(1, 4) // the tracked time fields live in an embedded struct (like gorm.Model's)
 	if r.Chance(2, 3) {
